@@ -547,7 +547,12 @@ def check_support_argument(ctx, prog):
     I.memo.clear()
     I.call_fn(fn2, [pb], st)      # the capture pass may or may not be written with the helper
     I.watch = {}
-    ctx.floor('calls of supported_pieces observed from the freezing rule', n_freeze, 2)
+    if n_freeze == 0:
+        # the freezing rule is written without the helper (e.g. `threatened & !influenced_squares(own)`): nothing to observe
+        # here; LT.freeze decides whose neighbours unfreeze a piece on exact tables
+        ctx.notes.append('C01.2s: the freezing rule does not call supported_pieces; support in freezing is decided by LT.freeze only')
+    else:
+        ctx.floor('calls of supported_pieces observed from the freezing rule', n_freeze, 2)
     for caller, args in sink:
         bv = args[0]
         colours = set()
